@@ -88,6 +88,7 @@ func C03(r *core.Report) {
 	}
 	r.Floor("C03.R0", 7)
 	nWrappers, nConsumers, nProbes := 0, 0, 0
+	okeyUses := map[string]int{}
 	for i := 0; i < len(roles); i++ {
 		role := roles[i]
 		callers := p.Callers(role.fn)
@@ -99,7 +100,13 @@ func C03(r *core.Report) {
 			}
 			keyExpr := cs.Call.Args[role.key]
 			info := f.Pkg.TypesInfo
-			okey := fmt.Sprintf("%s<-%s", f.Key, role.fn.Key)
+			// keyed by the consumer and the underlying lossy source (not by the wrapper the lookup goes through, which a
+			// refactoring may introduce or remove without changing what is answered)
+			okey := fmt.Sprintf("%s<-%s", f.Key, role.src)
+			okeyUses[okey]++
+			if n := okeyUses[okey]; n > 1 {
+				okey = fmt.Sprintf("%s~%d", okey, n)
+			}
 			if reason, ok := c03ExemptReason(f.Key); ok {
 				r.OK("C03.R1", okey+"#exempt", pos(r, cs.Call), "exempt: "+reason)
 				continue
